@@ -25,7 +25,13 @@ class ConcreteEnvSpec:
         self.cmds = []
 
     def include(self, ctx, arg):
-        return tuple(self.inc) if bytes(arg) == b'f' else None
+        if bytes(arg) == b'f':
+            return tuple(self.inc)
+        if bytes(arg) == b't.tmp':
+            if b't.tmp' in self.temps:
+                return tuple(self.temps[b't.tmp'])
+            return tuple(self.pre_temp) if getattr(self, 'pre_temp', None) is not None else None
+        return None
 
     def run(self, ctx, cmd):
         self.cmds.append(bytes(cmd))
@@ -154,6 +160,8 @@ def spec_concrete(d, model, trailing=True):
     cc = ConcreteCtx()
     res = [(code, conc(out, model)) for code, out in d.get('cmd_results', [])]
     env = ConcreteEnvSpec(conc(d['inc'], model), res)
+    if d.get('pre_temp') not in (None, 'DIR'):
+        env.pre_temp = conc(d['pre_temp'], model)
     r = specpp.process(cc, tuple(conc(d['source'], model)), env, trailing)
     return r, env
 
@@ -231,8 +239,9 @@ def validate_pp_samples(native, samples, limit=6):
         d = nc['data']
         try:
             names = set()
-            for key in ('source', 'inc'):
-                names |= {x for x in d.get(key, []) if not isinstance(x, int)}
+            for key in ('source', 'inc', 'pre_temp', 'pre_out'):
+                if isinstance(d.get(key), (list, tuple)):
+                    names |= {x for x in d[key] if not isinstance(x, int)}
             for _, o in d.get('cmd_results', []):
                 names |= {x for x in o if not isinstance(x, int)}
             names |= {x for x in (nc.get('out') or []) if not isinstance(x, int)}
